@@ -193,3 +193,18 @@ def check(repo: Repo, rep: Report) -> None:
                                     any((not p) and any(isinstance(t, ast.Assign) and u(t.targets[0]) == u(e) for t in ch.direct_nodes())
                                         for e, p in x.ctx.guards) for x in sites(ch))
         rep.ob("G1-gating", a, f"{side}: loser's subscription disposed with the choice", ok, "the losing source is not unsubscribed at the moment the winner is chosen")
+        # every notification kind of a side takes part in the race: its handler calls the side's choice helper, unconditionally,
+        # before it tests the winner (a first notification that is an error / completion must win too)
+        for arg in subs[i].node.args:
+            h = a.resolve_local_def(arg.id) if isinstance(arg, ast.Name) else None
+            if h is None:
+                rep.ob("G1-gating", a, f"amb: `{short(arg, 30)}` handed to subscribe is a local handler", False,
+                       "amb hands a notification kind straight to the subscriber (or to a non-local handler): it bypasses the race")
+                continue
+            hs = list(sites(h))
+            calls = [y for y in hs if isinstance(y.node, ast.Call) and isinstance(y.node.func, ast.Name) and y.node.func.id == side and not y.ctx.branch]
+            down = [y for y in hs if isinstance(y.node, ast.Call) and isinstance(y.node.func, ast.Attribute) and y.node.func.attr in ("on_next", "on_error", "on_completed")
+                    and u(y.node.func.value) == a.params[0]]
+            rep.ob("G1-gating", h, f"amb {h.name}: {side}() before the winner test", bool(calls) and all(calls[0].index < d.index for d in down),
+                   f"amb's {h.name} does not enter the race ({side}() is not called first): when this is the first notification of all, no winner "
+                   f"is chosen and the notification is dropped — amb does not mirror the first source to notify")
